@@ -722,7 +722,11 @@ func TaskUpdates(ctx context.Context, pg wpg.Conn) ([]TaskUpdate, error) {
 type Manager struct {
 	ctx     context.Context
 	running sync.Mutex
-	restart chan struct{}
+
+	// guards restart
+	restartMut sync.Mutex
+	restart    chan struct{}
+
 	tasks   []*Task
 	updates chan uint64
 	pgp     *pgxpool.Pool
@@ -743,10 +747,10 @@ func (tm *Manager) Updates() uint64 {
 	return <-tm.updates
 }
 
-func (tm *Manager) runTask(t *Task) {
+func (tm *Manager) runTask(t *Task, restart chan struct{}) {
 	for {
 		select {
-		case <-tm.restart:
+		case <-restart:
 			slog.InfoContext(t.ctx, "restart-task")
 			return
 		default:
@@ -774,11 +778,20 @@ func (tm *Manager) runTask(t *Task) {
 }
 
 // Ensures all running tasks stop
-// and calls [Manager.Run] in a new go routine.
+// and runs the tasks again in a new go routine.
+//
+// The tasks being stopped and the tasks being started each have
+// their own channel so that restarts may overlap, or follow
+// a restart that failed to load its tasks.
 func (tm *Manager) Restart() error {
+	tm.restartMut.Lock()
 	close(tm.restart)
+	restart := make(chan struct{})
+	tm.restart = restart
+	tm.restartMut.Unlock()
+
 	ec := make(chan error)
-	go tm.Run(ec)
+	go tm.run(ec, restart)
 	return <-ec
 }
 
@@ -789,6 +802,13 @@ func (tm *Manager) Restart() error {
 // Acquires a lock to ensure only on routine is running.
 // Releases lock on return
 func (tm *Manager) Run(ec chan error) {
+	tm.restartMut.Lock()
+	restart := tm.restart
+	tm.restartMut.Unlock()
+	tm.run(ec, restart)
+}
+
+func (tm *Manager) run(ec chan error, restart chan struct{}) {
 	tm.running.Lock()
 	defer tm.running.Unlock()
 
@@ -800,13 +820,12 @@ func (tm *Manager) Run(ec chan error) {
 	}
 	close(ec)
 
-	tm.restart = make(chan struct{})
 	var wg sync.WaitGroup
 	for i := range tm.tasks {
 		i := i
 		wg.Add(1)
 		go func() {
-			tm.runTask(tm.tasks[i])
+			tm.runTask(tm.tasks[i], restart)
 			wg.Done()
 		}()
 	}
